@@ -12,19 +12,31 @@
 (* keeps accepting until the supervisor's next wake-up;                    *)
 (* "GthreadDropsUndispatched": connections accepted (registered in the     *)
 (* poller) but not yet dispatched when the loop exits are abandoned.       *)
+(* Keep-alive (gthread, async): a client may send up to Reqs requests on   *)
+(* one connection; between two of them the connection is "parked" in the   *)
+(* worker.  Once the limit is reached every response says Connection:      *)
+(* close, so a parked connection gets at most one more request answered    *)
+(* (it was in the worker already); deviation "KeepAliveAfterLimit": the    *)
+(* close is only put on the response that reached the limit.               *)
 (***************************************************************************)
 EXTENDS Naturals, Sequences, FiniteSets, TLC
 
-CONSTANTS Family, Max, Conns, Threads, Dev
-\* Max = 0: max_requests unset.  Conns: set of client connections, each sends one request.
+CONSTANTS Family, Max, Conns, Threads, Dev, Reqs
+\* Max = 0: max_requests unset.  Conns: set of client connections, each sends up to Reqs requests.
 
-VARIABLES nr, alive, st, exited, pollPending, replaced
-vars == <<nr, alive, st, exited, pollPending, replaced>>
+VARIABLES nr, alive, st, exited, pollPending, replaced,
+          left,      \* left[c]: requests the client still wants to send on c
+          after,     \* history: requests started after the limit was reached
+          openAt     \* history: connections this worker held (accepted / running / parked) when it reached the limit
+vars == <<nr, alive, st, exited, pollPending, replaced, left, after, openAt>>
+hvars == <<left, after, openAt>>
 \* st[c]: "waiting" (in the listen backlog) | "accepted" (request not yet dispatched) | "running" |
-\*        "answered" | "dropped" (accepted by this worker, closed without an answer) | "next" (left for the next worker)
+\*        "parked" (kept alive between two requests) | "answered" (closed after its last answer) |
+\*        "dropped" (accepted by this worker, closed without an answer) | "next" (left for the next worker)
 
 Init == /\ nr = 0 /\ alive = TRUE /\ st = [c \in Conns |-> "waiting"] /\ exited = FALSE
         /\ pollPending = FALSE /\ replaced = FALSE
+        /\ left = [c \in Conns |-> Reqs] /\ after = 0 /\ openAt = 0
 
 Running == {c \in Conns : st[c] = "running"}
 Capacity == IF Family = "sync" THEN 1 ELSE Threads
@@ -39,7 +51,13 @@ Accept(c) ==
   /\ st[c] = "waiting" /\ Accepting
   /\ Family = "sync" => Running = {} /\ \A d \in Conns : st[d] # "accepted"
   /\ st' = [st EXCEPT ![c] = "accepted"]
-  /\ UNCHANGED <<nr, alive, exited, pollPending, replaced>>
+  /\ UNCHANGED <<nr, alive, exited, pollPending, replaced, hvars>>
+
+(* the client sends its next request on a parked connection: the worker that holds it reads it *)
+Again(c) ==
+  /\ st[c] = "parked" /\ ~exited
+  /\ st' = [st EXCEPT ![c] = "accepted"]
+  /\ UNCHANGED <<nr, alive, exited, pollPending, replaced, hvars>>
 
 (* handle_request: the counter is incremented when the request starts *)
 Start(c) ==
@@ -49,14 +67,19 @@ Start(c) ==
   /\ alive' = (alive /\ ~(Max > 0 /\ nr + 1 >= Max))
   /\ pollPending' = (pollPending \/ (alive /\ ~alive'))
   /\ st' = [st EXCEPT ![c] = "running"]
-  /\ UNCHANGED <<exited, replaced>>
+  /\ after' = (IF ~alive THEN after + 1 ELSE after)
+  /\ openAt' = (IF alive /\ ~alive' THEN Cardinality({d \in Conns \ {c} : st[d] \in {"accepted", "running", "parked"}}) ELSE openAt)
+  /\ UNCHANGED <<exited, replaced, left>>
 
+KeepsAlive == Family # "sync" /\ (alive \/ "KeepAliveAfterLimit" \in Dev)
 Finish(c) ==
-  /\ st[c] = "running" /\ st' = [st EXCEPT ![c] = "answered"]
-  /\ UNCHANGED <<nr, alive, exited, pollPending, replaced>>
+  /\ st[c] = "running"
+  /\ left' = [left EXCEPT ![c] = @ - 1]
+  /\ st' = [st EXCEPT ![c] = IF left[c] > 1 /\ KeepsAlive THEN "parked" ELSE "answered"]
+  /\ UNCHANGED <<nr, alive, exited, pollPending, replaced, after, openAt>>
 
 (* async supervisor wakes up (at most 1 s later) *)
-Poll == /\ pollPending /\ pollPending' = FALSE /\ UNCHANGED <<nr, alive, st, exited, replaced>>
+Poll == /\ pollPending /\ pollPending' = FALSE /\ UNCHANGED <<nr, alive, st, exited, replaced, hvars>>
 
 (* the worker leaves its loop: in-flight requests are finished first (graceful); what was accepted *)
 (* but not dispatched is served (design) or abandoned (gthread deviation)                          *)
@@ -64,20 +87,21 @@ Exit ==
   /\ ~alive /\ ~exited /\ Running = {}
   /\ (Family = "async" => ~pollPending)
   /\ IF Family = "gthread" /\ "GthreadDropsUndispatched" \in Dev
-     THEN st' = [c \in Conns |-> IF st[c] = "accepted" THEN "dropped" ELSE st[c]]
+     THEN st' = [c \in Conns |-> IF st[c] = "accepted" THEN "dropped" ELSE IF st[c] = "parked" THEN "answered" ELSE st[c]]
      ELSE /\ \A c \in Conns : st[c] # "accepted"
-          /\ UNCHANGED st
-  /\ exited' = TRUE /\ UNCHANGED <<nr, alive, pollPending, replaced>>
+          \* idle keep-alive connections are closed: the client's further requests go to another worker
+          /\ st' = [c \in Conns |-> IF st[c] = "parked" THEN "answered" ELSE st[c]]
+  /\ exited' = TRUE /\ UNCHANGED <<nr, alive, pollPending, replaced, hvars>>
 
 (* the master reaps it and forks a replacement, which serves what is still waiting *)
 Replace ==
   /\ exited /\ ~replaced /\ replaced' = TRUE
   /\ st' = [c \in Conns |-> IF st[c] = "waiting" THEN "next" ELSE st[c]]
-  /\ UNCHANGED <<nr, alive, exited, pollPending>>
+  /\ UNCHANGED <<nr, alive, exited, pollPending, hvars>>
 
-Next == (\E c \in Conns : Accept(c) \/ Start(c) \/ Finish(c)) \/ Poll \/ Exit \/ Replace
+Next == (\E c \in Conns : Accept(c) \/ Again(c) \/ Start(c) \/ Finish(c)) \/ Poll \/ Exit \/ Replace
 Spec == /\ Init /\ [][Next]_vars
-        /\ \A c \in Conns : WF_vars(Accept(c)) /\ WF_vars(Start(c)) /\ WF_vars(Finish(c))
+        /\ \A c \in Conns : WF_vars(Accept(c)) /\ WF_vars(Again(c)) /\ WF_vars(Start(c)) /\ WF_vars(Finish(c))
         /\ WF_vars(Poll) /\ WF_vars(Exit) /\ WF_vars(Replace)
 
 -----------------------------------------------------------------------------
@@ -86,6 +110,8 @@ StopsAcceptingAfterLimit ==
   \* once the limit is reached no further connection is accepted (those accepted before are served)
   [][(\E c \in Conns : st[c] = "waiting" /\ st'[c] = "accepted") => alive]_vars
 CountBounded == (Family = "sync" /\ Max > 0) => nr <= Max
+(* after the limit only what the worker already held is still served: at most one request per such connection *)
+WorkAfterLimitBounded == (Max > 0) => after <= openAt
 NoClientVisibleDrop == \A c \in Conns : st[c] # "dropped"
 LimitAndInflightAnswered == [](exited => \A c \in Conns : st[c] \notin {"running", "accepted"})
 ExitsAndReplaced == (Max > 0 /\ Cardinality(Conns) >= Max) => <>replaced
